@@ -38,6 +38,8 @@ pub fn configs_c09(tier: Tier) -> Vec<Box<dyn Config>> {
     // HashSet and HashTable counterparts
     v.push(set_probe_cfg(Plan::Zero, if q { 8 } else { 11 }, tier));
     v.push(super::c06::tab(Plan::Zero, if q { 5 } else { 7 }, if q { 7 } else { 9 }, vec![crate::tablesut::TProbe::Iterators], false, tier, "-iterators"));
+    // zero-sized elements: exact lengths and next / fold / for_each agreement of every HashTable iterator
+    v.push(Box::new(super::c02::ZstTables { tier }));
     // scripted deep tables (elements displaced into a second probe group, tombstones): iter / iter_hash / owning iterators
     v.push(super::c06::seeded_with(Plan::Zero, false, if q { 0 } else { 1 }, vec![crate::tablesut::TProbe::Iterators], tier));
     v.push(super::c06::seeded_with(Plan::Max, false, if q { 0 } else { 1 }, vec![crate::tablesut::TProbe::Iterators], tier));
